@@ -137,6 +137,50 @@ func newFieldModel(c *Ctx) *fieldModel {
 		m.labels[lbl] = li
 	})
 
+	// … and the names looked up in a package-level table of accessors before the switch
+	// (`if field, ok := taskFields[name]; ok { return field(lwc.ctx) }`): one label per key, reading what the
+	// entry's result reads
+	allInstrs(get, func(in ssa.Instruction) {
+		lk, ok := in.(*ssa.Lookup)
+		if !ok || lk.Index != ssa.Value(name) {
+			return
+		}
+		entries, _, _, isTbl := funcTableOf(lk)
+		if !isTbl {
+			return
+		}
+		// the entry found is called and its result returned
+		called := false
+		for _, r := range returnsOf(get) {
+			if call, isCall := stripConv(returnValues(r)[0]).(*ssa.Call); isCall && staticCallee(call) == nil {
+				if e2, _, _, ok2 := funcTableOf(call.Call.Value); ok2 && len(e2) == len(entries) {
+					called = true
+				}
+			}
+		}
+		if !called {
+			return
+		}
+		for _, k := range sortedKeys(entries) {
+			if m.labels[k] != nil {
+				continue
+			}
+			li := &labelInfo{name: k, reads: map[*types.Var]bool{}, pos: lk.Pos()}
+			for _, r := range returnsOf(entries[k]) {
+				v := returnValues(r)[0]
+				li.ret = v
+				readsOfValue(v, w, li.reads, map[ssa.Value]bool{}, 0)
+			}
+			for f := range li.reads {
+				if !f.Exported() {
+					delete(li.reads, f)
+				}
+			}
+			li.local = len(li.reads) == 0
+			m.labels[k] = li
+		}
+	})
+
 	// ---- glf tables (AST: constant composite literals) --------------------
 	gp := w.TPkg("shovel/glf")
 	for _, f := range gp.Syntax {
